@@ -349,7 +349,7 @@ func TestC12CrashPoints(t *testing.T) {
 			outs := make([]outcome, 0, len(pts))
 			nw := workers()
 			for at := 0; at < len(pts); at += nw {
-				if at >= nw && budget.Exceeded() {
+				if at >= 2*nw && budget.Exceeded() {
 					skipped += len(pts) - at
 					break
 				}
